@@ -105,8 +105,10 @@ CHECKS = {
           "variables; handler outcomes (values, references, every built-in exception class, an application-defined BaseException, CancelledError, "
           "exceptions with unprintable data, undecodable arguments, unknown handler, wrong arity) are exhaustive choices. Assertions are over the frame ledger of an in-memory channel: exactly one response bearing the request's own number, "
           "handler at most once, nothing escapes but the configured local propagations; a response reaches exactly the callback registered under "
-          "its number; callbacks are registered before sending and removed on failure."),
-    note=("Trusted: z3, interpreter, stub contracts of C04. One request/response at a time (histories and threads are C10-C13). The pinned tree's "
+          "its number; callbacks are registered before sending and removed on failure. Freshness of request numbers: the recurrence of the number source "
+          "found on the real Connection object (validated against Connection._get_seq_id) is encoded over unbounded integers and z3 decides that no two "
+          "requests i<j of one connection share a number, however many lie in between."),
+    note=("Trusted: z3, interpreter, stub contracts of C04; that itertools.count(a,s) yields a+s*k. One request/response at a time (histories and threads are C10-C13). The pinned tree's "
           "defect (unencodable reply tears the connection down) was found here and repaired in /repo."),
     technique="symbolic execution of the Python AST incl. the real serializer + z3 (LIA); replay on CPython"),
  "C12": dict(
